@@ -8,3 +8,4 @@ from . import mol_gen  # noqa: F401
 from . import stochastic  # noqa: F401
 from . import mixture  # noqa: F401
 from . import system  # noqa: F401
+from . import forcefield  # noqa: F401
